@@ -1,11 +1,28 @@
 """C04 -- the fid table follows the protocol history exactly."""
 import fidfam
+import srvfam
 
 
 def run(ctx):
     cov = fidfam.run_family(ctx, {"C04"})
+    # "no later than the reply that invalidates the fid" needs the reply and the destruction notice ordered against
+    # each other: clunk-heavy sessions under the gate controller, judged by the Mon9P monitors
+    q = ctx.quick
+    n = 6
+    cr = srvfam.consts(ctx, NReq=n, Tags=set(range(1, n + 1)), Fids={1, 2, 3}, Kinds={"Attach", "Stat", "Clunk", "Walk", "Flush"},
+                       Late=True, InitFids={1})
+    rc = {"cases": 150 if q else 1500, "nreq": n, "kinds": ["Attach", "Clunk", "Clunk", "Stat", "Walk"], "shared": False, "close": False,
+          "extra": False, "latep": 10, "sendp": 40, "probe": False}
+    rrep, tp, ep, bp = srvfam.random_run(ctx, cr, rc, "c04rand", 400000)
+    rj, tl = srvfam.run_trace_validation(ctx, tp, cr)
+    vd, el = srvfam.run_monitor(ctx, ep)
+    srvfam.report_verdicts(ctx, vd, {"C04"}, bp, cr, "TestRandom")
+    cov["traces_validated_against_impl"] += int(rrep.get("cases_total", 0) or 0)
+    cov["gated_sessions"] = int(rrep.get("cases_total", 0) or 0)
+    cov["gated_trace_rejects"] = len(rj)
     return ctx.finish("model_checking", cov, assumptions=[
-        "requests are issued one at a time (histories); concurrent use of one fid is the subject of C03/C07/C19",
+        "histories are sequential (one request at a time) for the table/refusal rules; the ordering of FidDestroy against the invalidating "
+        "reply is observed in clunk-heavy concurrent sessions under the gate controller",
         "in 9P2000 (non-.u) mode only user 0 is used: the attach user is taken from n_uname, which that dialect lacks",
         "error texts other than 'unknown fid' and 'fid already in use' are not compared",
     ])
